@@ -611,6 +611,11 @@ func authenticate(inner AuthorizationHandler, h *Handler, requireAuthentication 
 				return
 			}
 		case BearerAuthentication:
+			if h.sharedSecret == "" {
+				// Without a configured shared secret anyone could sign a token with the empty key.
+				HttpError(w, "bearer authentication is disabled: no shared secret configured", false, http.StatusUnauthorized)
+				return
+			}
 			keyLookupFn := func(token *jwt.Token) (interface{}, error) {
 				// Check for expected signing method.
 				if _, ok := token.Method.(*jwt.SigningMethodHMAC); !ok {
